@@ -238,3 +238,22 @@ PROPS["C07"] = {
         lane("TestSemantic", "semantic", 400, 2500, shards=16, must_classes=["semantic:cross-file-cycle", "semantic:unknown-type", "semantic:required-and-optional"]),
     ],
 }
+
+PROPS["C02"] = {
+    "pkg": "c02",
+    "level": "exploration",
+    "technique": "property-based testing (rapid) with a model-first j5s generator; reference-model oracle: the expected descriptor contract is derived from the model by the README rules and compared both ways with the compiled descriptors",
+    "level_text": ("A bundle model (1-3 packages x 1-3 files; objects, oneofs, enums top-level, explicitly nested and inline to depth 3; every field type and "
+                   "qualifier form; arrays and maps; imports by package/alias, cross-file and cross-package refs; services with every verb and path parameters; "
+                   "publish/reqres/upsert topics) is rendered to j5s text and compiled. An expected contract computed from the model alone - every message, "
+                   "field (proto name, JSON name, number, type, cardinality, proto3-optional, required, oneof), enum and value (prefix, numbering), service, method "
+                   "(request/response types, verb, path with {snake} parameters, body), topic role and name, implicit request/upsert field - must equal the "
+                   "compiled descriptors line for line, in both directions; every referenced type's file must be imported."),
+    "level_note": "Sampled; entities are covered by C17's own model. The expected model uses the harness's own snake/camel/SCREAMING functions, exact for the generator's vocabulary (no acronym runs or digits).",
+    "rule": ("contract: j5sgen.Draw without rules (rules do not change structure). Non-trivial: >=2 files in a package, a cross-package reference, inline nesting "
+             "depth>=2 or a service with a path parameter. Distinct by hash of the rendered sources."),
+    "assumptions": ["README: field numbers are 1-based declaration positions; inline types nest under their parent message named CamelCase(field) unless overridden; enum prefix defaults to SCREAMING_SNAKE(name)_"],
+    "lanes": [
+        lane("TestContract", "contract", 400, 2000, shards=16, must_classes=["multi-file-package", "ref-cross-package", "inline-depth>=2", "path-parameter", "topic:reqres", "topic:upsert", "inline-name-override"]),
+    ],
+}
